@@ -184,8 +184,12 @@ def has_marker(cs):
     return None
 
 
+TASK_RE = re.compile(r"\bTask-\d+\b")
+
+
 def transcript(cs, with_asyncio=False):
-    """canonical transcript for the twin comparison: addresses -> placeholders, traceback text dropped
+    """canonical transcript for the twin comparison: addresses -> placeholders, asyncio's default task names
+    (Task-<global counter>: differ from run to run whatever the password is) -> Task-N, traceback text dropped
     (it contains only source locations; it is inspected by the marker oracle)"""
     out = []
     for name, level, msg, args, message, exc_name, exc_text, func in cs:
@@ -194,6 +198,8 @@ def transcript(cs, with_asyncio=False):
         if msg in ADDR_FMTS:
             args = ("<host>", "<port>")
             message = msg % args
+        msg, message = TASK_RE.sub("Task-N", msg), TASK_RE.sub("Task-N", message)
+        args = tuple(TASK_RE.sub("Task-N", a) for a in args)
         out.append((name, level, msg, args, message, exc_name))
     return out
 
@@ -292,13 +298,48 @@ def mk_users(spec):
     return us
 
 
-def run_client_session(users_spec, user, password, debug=False):
+class FaultyUserManager(aioftp.MemoryUserManager):
+    """an application-supplied user manager whose password check fails (backend down): the error path of PASS.
+    The exception text carries no secret."""
+
+    async def authenticate(self, user, password):
+        raise RuntimeError("auth backend unavailable")
+
+
+def mk_manager(spec, fault):
+    return FaultyUserManager(mk_users(spec)) if fault else mk_users(spec)
+
+
+def session_setup(kd, q):
+    """login outcome kind -> (users, user name, authenticate raises?)"""
+    conf = q.rstrip()
+    return {
+        "accepted": ([("u", conf)], "u", False),
+        "rejected": ([("u", OTHER_PW)], "u", False),
+        "unknown-user": ([("u", conf)], "nobody", False),
+        "anonymous": ([(None, None)], "anyone", False),
+        "no-password-user": ([("u", None)], "u", False),
+        "auth-fault": ([("u", OTHER_PW)], "u", True),
+    }[kd]
+
+
+def raw_script(seq, V, q):
+    return {
+        "pass-before-user": [f"{V} {q}"],
+        "wrong-right-again": ["USER u", f"{V} {OTHER_PW}", f"{V} {q}", f"{V} {q}", f"{V} {OTHER_PW}"],
+        "unknown-user-then-pass": ["USER nobody", f"{V} {q}"],
+        "bare-pass": ["USER u", V, f"{V} ", f"{V} {q}"],
+        "auth-fault": ["USER u", f"{V} {q}", "NOOP"],
+    }[seq]
+
+
+def run_client_session(users_spec, user, password, debug=False, fault=False):
     """real Server + real Client.login on simnet; returns (outcome, canon records)"""
 
     async def main(net):
         if debug:
             asyncio.get_running_loop().set_debug(True)
-        server = aioftp.Server(mk_users(users_spec), path_io_factory=aioftp.MemoryPathIO)
+        server = aioftp.Server(mk_manager(users_spec, fault), path_io_factory=aioftp.MemoryPathIO)
         await server.start("127.0.0.1", 2121)
         client = aioftp.Client()
         await client.connect("127.0.0.1", 2121)
@@ -309,6 +350,8 @@ def run_client_session(users_spec, user, password, debug=False):
             outcome = "status:" + ",".join(str(c) for c in e.received_codes)
         except UnicodeEncodeError:
             outcome = "unencodable"
+        except Exception as e:  # e.g. the server dropped the connection: an outcome, not an abort
+            outcome = "raised:" + type(e).__name__
         client.close()
         await net.settle()
         await server.close()
@@ -320,13 +363,13 @@ def run_client_session(users_spec, user, password, debug=False):
     return outcome, [canon(r) for r in cap.records]
 
 
-def run_raw_session(users_spec, chunks, debug=False):
+def run_raw_session(users_spec, chunks, debug=False, fault=False):
     """real Server, raw peer sending `chunks` (bytes, EOL included) one at a time; returns (replies, canon records)"""
 
     async def main(net):
         if debug:
             asyncio.get_running_loop().set_debug(True)
-        server = aioftp.Server(mk_users(users_spec), path_io_factory=aioftp.MemoryPathIO)
+        server = aioftp.Server(mk_manager(users_spec, fault), path_io_factory=aioftp.MemoryPathIO)
         await server.start("127.0.0.1", 2121)
         raw = await simnet.Raw.connect(net, 2121)
         replies = [await raw.drain_replies()]
@@ -651,7 +694,7 @@ def correspondence(ctx, budget=None):
     ctx.count("F2_client_commands", len(cjobs))
 
     # ------------------------------------------------------------ S1: real client logins
-    kinds = ["accepted", "rejected", "unknown-user", "anonymous", "no-password-user"]
+    kinds = ["accepted", "rejected", "unknown-user", "anonymous", "no-password-user", "auth-fault"]
     s1 = []
     pws = [p for p in PW_FIXED if "\n" not in p]
     n_s1 = 120 * scale
@@ -664,6 +707,7 @@ def correspondence(ctx, budget=None):
             s1.append((kd, p))
     s1_runs = []
     outcomes = {}
+    n_fault_logged = 0
     for idx, (kd, p) in enumerate(s1):
         pair = []
         for q in (p, twin(rng, p)):
@@ -671,24 +715,17 @@ def correspondence(ctx, budget=None):
                 q.encode("utf-8")
             except UnicodeEncodeError:
                 continue
-            conf = q.rstrip()
-            if kd == "accepted":
-                spec, user = [("u", conf)], "u"
-            elif kd == "rejected":
-                spec, user = [("u", OTHER_PW)], "u"
-            elif kd == "unknown-user":
-                spec, user = [("u", conf)], "nobody"
-            elif kd == "anonymous":
-                spec, user = [(None, None)], "anyone"
-            else:
-                spec, user = [("u", None)], "u"
+            spec, user, fault = session_setup(kd, q)
             debug = idx % 7 == 0
             ctx.case(("S1", kd, q))
             ctx.traces_impl += 1
-            outcome, cs = run_client_session(spec, user, q, debug=debug)
+            outcome, cs = run_client_session(spec, user, q, debug=debug, fault=fault)
             outcomes[(kd, outcome)] = outcomes.get((kd, outcome), 0) + 1
             pair.append((q, spec, user, outcome, cs))
-            s1_runs.append((kd, q, spec, user, outcome, cs))
+            if not fault:  # the session model has no failing user manager: oracle only for that kind
+                s1_runs.append((kd, q, spec, user, outcome, cs))
+            else:
+                n_fault_logged += any(c[2] == "dispatcher caught exception" and c[5] == "RuntimeError" for c in cs)
         if len(pair) == 2:
             (p1, _, _, o1, c1), (p2, _, _, o2, c2) = pair
             hit = has_marker(c2) if p2 != p1 else None
@@ -705,10 +742,14 @@ def correspondence(ctx, budget=None):
                      "diff": first_diff(transcript(c1), transcript(c2))},
                 )
     ctx.extra["S1_outcomes"] = {f"{k[0]}:{k[1]}": v for k, v in sorted(outcomes.items())}
-    expected_out = {"accepted": "logged-in", "rejected": "status:530", "unknown-user": "status:530", "anonymous": "logged-in", "no-password-user": "logged-in"}
+    expected_out = {"accepted": "logged-in", "rejected": "status:530", "unknown-user": "status:530", "anonymous": "logged-in", "no-password-user": "logged-in",
+                    "auth-fault": "raised:ConnectionResetError"}
     for (kd, oc), n in outcomes.items():
         if expected_out[kd] != oc:
             ctx.disagree("S1-outcome", kd, expected_out[kd], oc)
+    ctx.count("S1_auth_fault_sessions_with_the_fault_logged", n_fault_logged)
+    if n_fault_logged == 0:
+        ctx.disagree("S1-non-vacuity", "no auth-fault session logged the RuntimeError", ">0", 0)
     mo = ctx.model(
         [
             (4, [censor, enc_users(spec), "PASS ", 5, conn_addr(split_loggers(cs)[0])[0], conn_addr(split_loggers(cs)[0])[1], user, q, ""])
@@ -731,8 +772,8 @@ def correspondence(ctx, budget=None):
 
     # ------------------------------------------------------------ S2: raw scripts, verb spellings
     s2_runs = []
-    seqs = ["pass-before-user", "wrong-right-again", "unknown-user-then-pass", "bare-pass"]
-    n_s2 = 96 * scale
+    seqs = ["pass-before-user", "wrong-right-again", "unknown-user-then-pass", "bare-pass", "auth-fault"]
+    n_s2 = 120 * scale
     for i in range(n_s2):
         V = SPELLINGS[i % len(SPELLINGS)]
         seq = seqs[(i // len(SPELLINGS)) % len(seqs)]
@@ -742,20 +783,14 @@ def correspondence(ctx, budget=None):
         for q in (p, twin(rng, p)):
             conf = q.rstrip()
             spec = [("u", conf)]
-            if seq == "pass-before-user":
-                script = [f"{V} {q}"]
-            elif seq == "wrong-right-again":
-                script = ["USER u", f"{V} {OTHER_PW}", f"{V} {q}", f"{V} {q}", f"{V} {OTHER_PW}"]
-            elif seq == "unknown-user-then-pass":
-                script = ["USER nobody", f"{V} {q}"]
-            else:
-                script = ["USER u", V, f"{V} ", f"{V} {q}"]
+            script = raw_script(seq, V, q)
             chunks = [(l + end).encode("utf-8", "surrogatepass") for l in script]
             ctx.case(("S2", V, seq, q, end))
             ctx.traces_impl += 1
-            replies, cs = run_raw_session(spec, chunks, debug=(i % 9 == 0))
+            replies, cs = run_raw_session(spec, chunks, debug=(i % 9 == 0), fault=(seq == "auth-fault"))
             pair.append((q, replies, cs))
-            s2_runs.append((V, seq, q, spec, [l + end for l in script], replies, cs))
+            if seq != "auth-fault":  # oracle only (no failing user manager in the session model)
+                s2_runs.append((V, seq, q, spec, [l + end for l in script], replies, cs))
         (p1, r1, c1), (p2, r2, c2) = pair
         hit = has_marker(c2) if p2 != p1 else None
         if hit:
@@ -938,15 +973,8 @@ def replay(ctx, data):
         kd = r["kind"]
         res = []
         for q in (p, twin(rng, p)):
-            conf = q.rstrip()
-            spec, user = {
-                "accepted": ([("u", conf)], "u"),
-                "rejected": ([("u", OTHER_PW)], "u"),
-                "unknown-user": ([("u", conf)], "nobody"),
-                "anonymous": ([(None, None)], "anyone"),
-                "no-password-user": ([("u", None)], "u"),
-            }[kd]
-            outcome, cs = run_client_session(spec, user, q)
+            spec, user, fault = session_setup(kd, q)
+            outcome, cs = run_client_session(spec, user, q, fault=fault)
             for c in cs:
                 print(c[:5])
             res.append(cs)
@@ -957,13 +985,8 @@ def replay(ctx, data):
         res = []
         for q in (p, twin(rng, p)):
             conf = q.rstrip()
-            script = {
-                "pass-before-user": [f"{V} {q}"],
-                "wrong-right-again": ["USER u", f"{V} {OTHER_PW}", f"{V} {q}", f"{V} {q}", f"{V} {OTHER_PW}"],
-                "unknown-user-then-pass": ["USER nobody", f"{V} {q}"],
-                "bare-pass": ["USER u", V, f"{V} ", f"{V} {q}"],
-            }[seq]
-            _, cs = run_raw_session([("u", conf)], [(l + end).encode("utf-8", "surrogatepass") for l in script])
+            script = raw_script(seq, V, q)
+            _, cs = run_raw_session([("u", conf)], [(l + end).encode("utf-8", "surrogatepass") for l in script], fault=(seq == "auth-fault"))
             for c in cs:
                 print(c[:5])
             res.append(cs)
